@@ -307,7 +307,11 @@ def show_attributes(self, out, prefix, attributes_level, print_width):
             else:
                 indent = prefix + " " * (3 + len(name) + 3)
                 fits_on_one_line = len(indent + value) < print_width
-                if not is_standard_identifier(value) or not fits_on_one_line:
+                if (
+                    not is_standard_identifier(value)
+                    or value.lower() in ("none", "auto")
+                    or not fits_on_one_line
+                ):
                     value = str(tokenizer.word(value=value, quote_token='"'))
                     fits_on_one_line = len(indent + value) < print_width
                 if fits_on_one_line:
